@@ -1,13 +1,13 @@
 #!/bin/sh
 # usage: confirm_py.sh <Cxx> <a|b>    demo = demo.py driving target/debug/lsp
-C=$1; M=$2; W=/tmp/mut/$C; O=$W/out/$M
+C=$1; M=$2; W=${MUTROOT:-/tmp/mut}/$C; O=$W/out/$M
 cd $W || exit 2
 git checkout -q -- . ; git clean -fdq crates
 git apply $O/patch.diff || { echo "APPLY-FAIL"; exit 2; }
 T=$(cargo test --workspace --offline 2>&1 | grep -E "^test result" | awk '{p+=$4; f+=$6} END {print p" passed "f" failed"}')
 cargo build --offline -q 2>/dev/null
-DEMO_TIMEOUT=15 timeout 600 python3 $O/demo.py target/debug/lsp > $O/with.log 2>&1; R1=$?
+DEMO_TIMEOUT=15 C08_TIMEOUT=10 timeout 600 python3 $O/demo.py target/debug/lsp > $O/with.log 2>&1; R1=$?
 git apply -R $O/patch.diff; cargo build --offline -q 2>/dev/null
-DEMO_TIMEOUT=15 timeout 600 python3 $O/demo.py target/debug/lsp > $O/without.log 2>&1; R2=$?
+DEMO_TIMEOUT=15 C08_TIMEOUT=10 timeout 600 python3 $O/demo.py target/debug/lsp > $O/without.log 2>&1; R2=$?
 git checkout -q -- . ; git clean -fdq crates
 echo "== $C-$M suite with change: $T; demo exit with change: $R1; without: $R2"
